@@ -3,6 +3,10 @@
 
 #[path = "../../harness/src/engine.rs"]
 mod engine;
+/// (the harness crate's counting allocator is not used here; the engine only needs this entry point)
+mod alloc {
+    pub fn set_last_words(_f: Option<Box<dyn Fn(usize)>>) {}
+}
 #[path = "../../harness/src/util.rs"]
 mod util;
 #[path = "../../sched/src/oracles.rs"]
